@@ -425,12 +425,12 @@ impl Check for C04 {
                 Section { name: "single-decoders-damaged", runs: 100_000 },
             ],
             Tier::Thorough => vec![
-                Section { name: "damaged-streams", runs: 3_000_000 },
-                Section { name: "field-extremes", runs: 3_000_000 },
-                Section { name: "random-bytes-all-entry-points", runs: 2_000_000 },
-                Section { name: "every-prefix-with-reader-faults", runs: 60_000 },
-                Section { name: "amplification-attempts", runs: 12_000 },
-                Section { name: "single-decoders-damaged", runs: 1_500_000 },
+                Section { name: "damaged-streams", runs: 12_000_000 },
+                Section { name: "field-extremes", runs: 12_000_000 },
+                Section { name: "random-bytes-all-entry-points", runs: 8_000_000 },
+                Section { name: "every-prefix-with-reader-faults", runs: 150_000 },
+                Section { name: "amplification-attempts", runs: 60_000 },
+                Section { name: "single-decoders-damaged", runs: 6_000_000 },
             ],
         }
     }
